@@ -96,6 +96,12 @@ def handleC07 (cmd : String) (args : List Sexp) : Option Sexp :=
   | "c07.contig", [.list offs] => do
       let offs ← nats? offs
       pure (.atom (if isContig ⟨0, offs⟩ then "true" else "false"))
+  | "c07.index_class", [.list items] => do
+      let items ← items.mapM (fun it => match it with
+        | .atom "int" => some IxItem.int | .atom "slice" => some .slice | .atom "newaxis" => some .none | .atom "ellipsis" => some .ellipsis
+        | .atom "int0d" => some .int0d | .atom "list" => some .list | .atom "tensor" => some .tensor | .atom "mask" => some .mask
+        | .atom "range" => some .range | .atom "array" => some .array | _ => none)
+      pure (.atom (indexClass items).name)
   | "c07.setstr", [init, .atom locked, .atom mode, .atom k, vobj, .atom vkey, .list vals] => do
       -- `_set_str` of objs[0] with the value tensor objs[vobj][vkey]
       let s ← C07D.initOf? init
